@@ -236,10 +236,32 @@ Proof. exact Mul64.fmul64_finite. Qed.
 Print Assumptions times_64_exact.
 
 (* the quantised value: the source's float64 computation floor(float64(c)*64 + 0.5), narrowed and divided by 64, is the
-   model's floor(c*64 + 1/2)/64 stated on exact integers -- for every low-resolution coordinate in [-128,128) of magnitude at
-   least 2^-35 (proofs/QuantBase.v, QuantEq.v: widening, times 64 and adding one half are exact there, from the soft-float's
-   rounding specification).  For smaller non-zero coordinates the float64 sum is not exact (both sides still give 0, which
-   is not proved); the two zeros are checked below. *)
+   model's floor(c*64 + 1/2)/64 stated on exact integers -- for every low-resolution coordinate in [-128,128)
+   (proofs/QuantBase.v, QuantEq.v: for magnitudes of at least 2^-35 widening, times 64 and adding one half are exact, from
+   the soft-float's rounding specification; proofs/QuantTiny.v: for smaller non-zero coordinates the float64 sum is not
+   exact but lies strictly between 0 and 1, so its floor is +0, the model's value; the two zeros by computation). *)
+Theorem code_quantize_all : forall f, wf_f32 f -> fle F32 cm128 f = true -> flt F32 f c128 = true ->
+  go_encode_Encoder_quantize false f = quantize false f.
+Proof. exact GenEqNum.go_quantize_all. Qed.
+Print Assumptions code_quantize_all.
+
+(* with code_quantize_untouched: the source's quantize and the model's agree on every 32-bit pattern, in both resolutions *)
+Theorem code_quantize_total : forall hires f, wf_f32 f -> go_encode_Encoder_quantize hires f = quantize hires f.
+Proof.
+  intros hires f W.
+  destruct (negb hires && fle F32 cm128 f && flt F32 f c128) eqn:G.
+  - destruct hires; [discriminate|]. cbn [negb andb] in G. apply andb_prop in G. destruct G as [L1 L2].
+    exact (GenEqNum.go_quantize_all f W L1 L2).
+  - destruct (GenEqNum.go_quantize_untouched hires f G) as [A B]. rewrite A, B. reflexivity.
+Qed.
+Print Assumptions code_quantize_total.
+
+Theorem code_quantize_tiny : forall f, wf_f32 f -> fle F32 cm128 f = true -> flt F32 f c128 = true ->
+  0 < Z.abs (ival32 f) < 2 ^ 114 ->
+  go_encode_Encoder_quantize false f = quantize false f.
+Proof. exact GenEqNum.go_quantize_tiny. Qed.
+Print Assumptions code_quantize_tiny.
+
 Theorem code_quantize : forall f, wf_f32 f -> fle F32 cm128 f = true -> flt F32 f c128 = true ->
   2 ^ 114 <= Z.abs (ival32 f) ->
   go_encode_Encoder_quantize false f = quantize false f.
@@ -251,6 +273,12 @@ Example ex_code_quantize_zeros :
   go_encode_Encoder_quantize false 2147483648 = quantize false 2147483648 /\
   go_encode_Encoder_quantize false 1036831949 (* 0.1 *) = quantize false 1036831949.
 Proof. vm_compute. repeat split; reflexivity. Qed.
+
+(* a non-zero coordinate below 2^-35 (2^-40 = 0x2b800000) meets the hypotheses of code_quantize_tiny *)
+Example ex_code_quantize_tiny :
+  wf_f32 729808896 /\ fle F32 cm128 729808896 = true /\ flt F32 729808896 c128 = true /\
+  0 < Z.abs (ival32 729808896) < 2 ^ 114 /\ quantize false 729808896 = 0.
+Proof. unfold wf_f32. vm_compute. repeat split; try reflexivity; discriminate. Qed.
 
 Example ex_code_natural : go_encode_buffer_encodeNatural [] 300 = [177; 4] /\ go_decode_buffer_decodeNatural [177; 4] = (300, 2).
 Proof. vm_compute. split; reflexivity. Qed.
